@@ -33,6 +33,7 @@ type c10Case struct {
 	Len      int    `json:"len"`
 	Hex      string `json:"hex,omitempty"` // only for small inputs
 	data     []byte
+	mk       func() []byte // enumerated cases are materialised when they run (tens of thousands of copies of a 15 KB file do not fit the address-space limit the harness runs under)
 }
 
 var c10Hostile = []uint64{0, 1, 2, 31, 32, 33, 255, 256, 65535, 65536, 1<<31 - 1, 1 << 31, 1<<32 - 1, 1 << 32, 1<<63 - 1, 1 << 63, 1<<63 + 1, 1<<64 - 1, 1<<64 - 2}
@@ -175,9 +176,11 @@ func c10Enumerated(name string, f *kit.GFile) []c10Case {
 			vals = append(vals, 29, 30, 31, 39, 40)
 		}
 		for _, v := range vals {
-			m := append([]byte(nil), b...)
-			c10Put(m, fl.Pos, fl.Size, f.BigEndian, v)
-			out = append(out, c10Case{Base: name, Mutation: fmt.Sprintf("%s[%s]@%d=%d", fl.What, fl.Key, fl.Pos, v), data: m})
+			out = append(out, c10Case{Base: name, Mutation: fmt.Sprintf("%s[%s]@%d=%d", fl.What, fl.Key, fl.Pos, v), mk: func() []byte {
+				m := append([]byte(nil), b...)
+				c10Put(m, fl.Pos, fl.Size, f.BigEndian, v)
+				return m
+			}})
 		}
 	}
 	// lengths that point BACKWARDS (two's complement of a distance, i.e. >= 2^63) to a place where parsing can start
@@ -227,15 +230,18 @@ func c10Enumerated(name string, f *kit.GFile) []c10Case {
 					if variant > 0 && ownCount[i] < 0 {
 						continue
 					}
-					m := append([]byte(nil), b...)
-					c10Put(m, fl.Pos, 8, f.BigEndian, -uint64(after-target))
-					if variant != 1 {
-						c10Put(m, nkv.Pos, nkv.Size, f.BigEndian, 1<<40)
-					}
-					if variant != 0 {
-						c10Put(m, ownCount[i], 8, f.BigEndian, 1<<31-1)
-					}
-					out = append(out, c10Case{Base: name, Mutation: fmt.Sprintf("%s[%s]@%d=back-to-%d,endless-counts-variant-%d", fl.What, fl.Key, fl.Pos, target, variant), data: m})
+					cnt := ownCount[i]
+					out = append(out, c10Case{Base: name, Mutation: fmt.Sprintf("%s[%s]@%d=back-to-%d,endless-counts-variant-%d", fl.What, fl.Key, fl.Pos, target, variant), mk: func() []byte {
+						m := append([]byte(nil), b...)
+						c10Put(m, fl.Pos, 8, f.BigEndian, -uint64(after-target))
+						if variant != 1 {
+							c10Put(m, nkv.Pos, nkv.Size, f.BigEndian, 1<<40)
+						}
+						if variant != 0 {
+							c10Put(m, cnt, 8, f.BigEndian, 1<<31-1)
+						}
+						return m
+					}})
 				}
 			}
 		}
@@ -256,7 +262,7 @@ func c10Enumerated(name string, f *kit.GFile) []c10Case {
 			}
 			g.KVs = append([]kit.GKV{{Key: k, Type: t, Val: c10Value(r, t)}}, g.KVs...)
 			g.Tensors = append([]kit.GTensor(nil), f.Tensors...)
-			out = append(out, c10Case{Base: name, Mutation: fmt.Sprintf("retype[%s]=%d", k, t), data: g.Bytes()})
+			out = append(out, c10Case{Base: name, Mutation: fmt.Sprintf("retype[%s]=%d", k, t), mk: g.Bytes})
 		}
 	}
 	return out
@@ -587,6 +593,9 @@ func TestVerifC10(t *testing.T) {
 			c.Index = i
 		} else {
 			c = c10Random(kit.NewRand(cfg.Seed, "C10", i), i)
+		}
+		if c.mk != nil {
+			c.data = c.mk()
 		}
 		if replayHex != "" {
 			c.data, _ = hex.DecodeString(replayHex)
